@@ -33,6 +33,7 @@ type process struct {
 	pid      *PID
 	restarts int32
 	mbuffer  []Envelope
+	stopped  bool
 }
 
 func newProcess(e *Engine, opts Opts) *process {
@@ -138,6 +139,11 @@ func (p *process) Start() {
 		p.Invoke(p.mbuffer)
 		p.mbuffer = nil
 	}
+	// The replayed buffer can hold a poison pill or exhaust the restart
+	// budget; a process that has been cleaned up must not reopen its inbox.
+	if p.stopped {
+		return
+	}
 
 	p.inbox.Start(p)
 }
@@ -195,6 +201,7 @@ func (p *process) cleanup(cancel context.CancelFunc) {
 		}
 	}
 
+	p.stopped = true
 	p.inbox.Stop()
 	p.context.engine.Registry.Remove(p.pid)
 	p.context.message = Stopped{}
